@@ -35,13 +35,20 @@ type svcObs struct {
 }
 
 // member service: outcome ok / error / panic; blocks until its context ends when blocks is set.
+// Outcomes "ctxerr+cleanup" / "ctxerr+shutdown": Run blocks until its context
+// ends and returns that context's error (as well-behaved services do), and the
+// Cleanup / Shutdown hook fails with the service's own error: that failure is a
+// failure of the service like any other.
 func member(i int, outcome string, blocks bool, o *svcObs) *srv.Service {
 	o.err = fmt.Errorf("service-%d-failed", i)
-	return &srv.Service{Name: fmt.Sprint("svc", i), Run: func(ctx context.Context) error {
+	hooked := outcome == "ctxerr+cleanup" || outcome == "ctxerr+shutdown"
+	s := &srv.Service{Name: fmt.Sprint("svc", i), Run: func(ctx context.Context) error {
 		o.runs++
 		o.start = vs.Now()
-		defer func() { o.end = vs.Now() }()
-		if blocks {
+		if !hooked {
+			defer func() { o.end = vs.Now() }()
+		}
+		if blocks || hooked {
 			<-ctx.Done()
 		}
 		vs.Yield()
@@ -50,9 +57,19 @@ func member(i int, outcome string, blocks bool, o *svcObs) *srv.Service {
 			return o.err
 		case "panic":
 			panic(o.err)
+		case "ctxerr+cleanup", "ctxerr+shutdown":
+			return ctx.Err()
 		}
 		return nil
 	}}
+	switch outcome {
+	case "ctxerr+cleanup":
+		s.Cleanup = func() error { o.end = vs.Now(); return o.err }
+	case "ctxerr+shutdown":
+		s.Shutdown = func() error { return o.err }
+		s.Cleanup = func() error { o.end = vs.Now(); return nil }
+	}
+	return s
 }
 
 // orchestrator: services in a given state at Add time, added before/after Start.
@@ -137,6 +154,14 @@ func orchestrator(states []string, outcomes []string, addAfterStart []bool, prom
 
 // group: members started once, all awaited, errors collected.
 func group(outcomes []string, blocks []bool) vs.Scenario {
+	return groupPre(outcomes, blocks, nil)
+}
+
+// groupPre: pre[i] is the member's state when the group starts: "" (fresh),
+// "running" (started elsewhere, blocks until that context ends) or "finished"
+// (started elsewhere and already returned). The group must still await every
+// member and collect its failure.
+func groupPre(outcomes []string, blocks []bool, pre []string) vs.Scenario {
 	return func() (func(), func(*vs.End) (string, string)) {
 		obs := make([]*svcObs, len(outcomes))
 		var waitErr error
@@ -144,20 +169,44 @@ func group(outcomes []string, blocks []bool) vs.Scenario {
 		body := func() {
 			ctx, cancel := context.WithCancel(context.Background())
 			defer cancel()
+			ectx, ecancel := context.WithCancel(context.Background())
 			svcs := make([]*srv.Service, len(outcomes))
+			external := false
 			for i := range outcomes {
 				obs[i] = &svcObs{}
-				svcs[i] = member(i, outcomes[i], blocks[i], obs[i])
+				st := ""
+				if pre != nil {
+					st = pre[i]
+				}
+				svcs[i] = member(i, outcomes[i], blocks[i] || st == "running", obs[i])
+				switch st {
+				case "running":
+					_ = svcs[i].Start(ectx)
+					external = true
+				case "finished":
+					_ = svcs[i].Start(ectx)
+					_ = svcs[i].Wait()
+				}
 			}
 			g := srv.Group(fun.SliceIterator(svcs))
 			_ = g.Start(ctx)
 			vs.Quiesce()
 			g.Close()
+			fin := make(chan struct{}, 1)
+			// members running elsewhere end at an arbitrary time after the group was closed
+			go func() {
+				if external {
+					ecancel()
+				}
+				fin <- struct{}{}
+			}()
 			waitErr = g.Wait()
 			waitRet = vs.Now()
+			<-fin
+			ecancel()
 		}
 		check := func(e *vs.End) (string, string) {
-			where := fmt.Sprintf("group outcomes=%v blocks=%v", outcomes, blocks)
+			where := fmt.Sprintf("group outcomes=%v blocks=%v pre=%v", outcomes, blocks, pre)
 			if t, d := endTag(e); t != "" {
 				return t, where + ": " + d
 			}
@@ -431,6 +480,26 @@ func build(tier string) ([]runner.Instance, time.Duration) {
 				add("group", fmt.Sprintf("group/%v,blocks=%v", oc, bl), bound, group(oc, bl))
 			}
 		}
+	}
+	// members that somebody else started (still running / already finished) before the group starts
+	for _, oc := range outs {
+		for _, st := range []string{"running", "finished"} {
+			add("group", fmt.Sprintf("group/pre=%s,%s", st, oc), bound+1, groupPre([]string{oc}, []bool{false}, []string{st}))
+			add("group", fmt.Sprintf("group/pre=%s+fresh,%s", st, oc), bound, groupPre([]string{oc, "ok"}, []bool{false, true}, []string{st, ""}))
+		}
+	}
+	// services that return their context's error on shutdown and fail in a hook
+	for _, oc := range []string{"ctxerr+cleanup", "ctxerr+shutdown"} {
+		for _, st := range states {
+			if st == "finished" {
+				continue // Run only returns once its context ended
+			}
+			for _, after := range []bool{false, true} {
+				add("orchestrator", fmt.Sprintf("orchestrator/1/%s,%s,after=%v", st, oc, after), bound+1, orchestrator([]string{st}, []string{oc}, []bool{after}, false))
+			}
+		}
+		add("orchestrator", fmt.Sprintf("orchestrator/2/[not-started not-started],[%s error]", oc), bound, orchestrator([]string{"not-started", "not-started"}, []string{oc, "error"}, []bool{false, false}, false))
+		add("group", fmt.Sprintf("group/[%s],blocks", oc), bound, group([]string{oc}, []bool{true}))
 	}
 	for _, handler := range []bool{false, true} {
 		for w := 1; w <= 2; w++ {
